@@ -21,8 +21,10 @@
        and tied to the code by the vp8parse correspondence, equal the reference parser function by function: read_coefficients =
        get_coeffs, read_macroblock_header = parse_mb_mode, the quantiser / loop-filter / segmentation / probability blocks of the
        frame header, read_residual_data = parse_residuals + inverse transforms for both kinds of non-skipped macroblock.
+     * (module I) intra prediction, modelled in Model/Vp8Predict.v and tied by the vp8predict correspondence: the ten 4x4 predictors,
+       the 16x16 / 8x8 predictors, add_residue and the border construction equal the reference predictors of Spec.VP8.
    NOT proved: the chaining of these function-level theorems into one frame-level statement (the scalar reads and byte framing of
-   read_frame_header, the skipped-macroblock branch inlined in decode_frame_), intra prediction, and the workspace / border
+   read_frame_header, the skipped-macroblock branch inlined in decode_frame_, the sub-block loop of predict_4x4), and the workspace / border
    bookkeeping = frame-addressed reconstruction and per-macroblock filter traversal: decided on every run by the
    whole-frame correspondence implementation = Spec.VP8.decode on generated key frames (harness c02), and on libwebp. *)
 From Coq Require Import ZArith List Lia.
@@ -30,6 +32,7 @@ From WebP Require Import Gen.Tables Gen.Kernels Lib.ZBits Lib.Arr Spec.VP8Tables
   Proofs.VP8_arraykernels_aux Proofs.VP8_arraykernels Proofs.VP8_filter_params Proofs.VP8_quant.
 From WebP Require Lib.Res Spec.BoolDec Model.ArithDec Model.Vp8Parse Proofs.C15_model Proofs.VP8_parse_base Proofs.VP8_parse_coeffs Proofs.VP8_parse_mbheader
   Proofs.VP8_parse_header Proofs.VP8_parse_residual Proofs.VP8_parse_refuted.
+From WebP Require Model.Vp8Predict Proofs.VP8_predict_base Proofs.VP8_predict_sub Proofs.VP8_predict_border Proofs.VP8_predict.
 Import ListNotations.
 Open Scope Z_scope.
 
@@ -446,3 +449,86 @@ Module P.
   Proof. exact VP8_parse_refuted.header_acceptance_refuted. Qed.
 
 End P.
+
+(* ---------------- intra prediction (Model/Vp8Predict.v, tied to the code by the vp8predict correspondence through hooks: every predictor,
+   add_residue, border construction, intra_predict_luma / intra_predict_chroma) = the reference predictors of Spec.VP8 ---------------- *)
+Module I.
+  Import Lib.Res Lib.ZBits Gen.Kernels Gen.Tables Spec.VP8 Spec.VP8Tables Model.Vp8Predict
+    Proofs.VP8_tables Proofs.VP8_predict_base Proofs.VP8_predict_sub Proofs.VP8_predict_border Proofs.VP8_predict.
+
+  (* the ten 4x4 sub-block predictors (any position and stride inside the workspace): predict_b??pred writes exactly the reference pred4 of the 13 neighbour cells it reads, touches nothing else, never panics; mode numbers related by the bijective renumbering bmode_to_rfc *)
+  Theorem predict_sub_spec :
+    forall (m : Z) (a : list Z) (x0 y0 s : Z),
+           0 <= m <= 9 -> bytes a -> fits4 a x0 y0 s -> predict_sub (bmode_to_rfc m) a x0 y0 s = Ok (put4x4 a x0 y0 s (pred4_ws m a x0 y0 s)).
+  Proof. exact VP8_predict_sub.predict_sub_spec. Qed.
+
+  (* add_residue = clip255 (sample + residue) on the 16 cells *)
+  Theorem add_residue_spec :
+    forall (a res0 : list Z) (x0 y0 s : Z),
+           bytes a ->
+           fits4 a x0 y0 s ->
+           length res0 = 16%nat -> res_ok res0 -> add_residue a res0 y0 x0 s = Ok (put4x4 a x0 y0 s (zip_with add_clip (blk4 a x0 y0 s) res0)).
+  Proof. exact VP8_predict_sub.add_residue_spec. Qed.
+
+  (* predict + residue = what the reference store4x4 writes *)
+  Theorem predict_then_residue :
+    forall (m : Z) (a a1 a2 res0 : list Z) (x0 y0 s r c : Z),
+           0 <= m <= 9 ->
+           bytes a ->
+           fits4 a x0 y0 s ->
+           length res0 = 16%nat ->
+           res_ok res0 ->
+           predict_sub (bmode_to_rfc m) a x0 y0 s = Ok a1 ->
+           add_residue a1 res0 y0 x0 s = Ok a2 ->
+           0 <= r < 4 ->
+           0 <= c < 4 ->
+           get a2 ((y0 + r) * s + x0 + c) = clip255 (nth (Z.to_nat (4 * r + c)) (pred4_ws m a x0 y0 s) 0 + nth (Z.to_nat (4 * r + c)) res0 0).
+  Proof. exact VP8_predict.predict_then_residue. Qed.
+
+  (* create_border_luma builds the reference neighbourhood (interior, top row, left column, corners, last column: 127 / 129 out-of-frame values, above-right rule) *)
+  Theorem create_border_luma_spec :
+    forall (p : plane) (mbw mx my : Z) (top left : list Z),
+           0 <= mx < mbw ->
+           0 <= my ->
+           top_holds p mbw mx my top ->
+           left_holds p mx my left -> exists ws : list Z, create_border_luma mx my mbw top left = Ok ws /\ luma_border p mbw mx my ws.
+  Proof. exact VP8_predict_border.create_border_luma_spec. Qed.
+
+  (* the inline chroma border construction of intra_predict_chroma *)
+  Theorem create_border_chroma_spec :
+    forall (p : plane) (buf : list Z) (mbw mbh mx my : Z),
+           0 <= mx < mbw ->
+           0 <= my < mbh ->
+           plane_holds p buf (mbw * 8) (mbh * 8) -> exists ws : list Z, create_border_chroma mx my mbw buf = Ok ws /\ chroma_border p mx my ws.
+  Proof. exact VP8_predict.create_border_chroma_spec. Qed.
+
+  (* 16x16 V / H / TM / DC prediction on the luma workspace = the reference pred_big at the frame position *)
+  Theorem luma_predict_big_spec :
+    forall (p : plane) (mbw mx my : Z) (ws : list Z),
+           0 <= mx ->
+           0 <= my ->
+           luma_border p mbw mx my ws ->
+           forall m : Z, 0 <= m <= 3 -> bytes ws -> big_ok (predict_big (ymode_to_rfc m) ws 16 21 mx my) ws 17 21 16 (pred_big p 16 4 mx my m).
+  Proof. exact VP8_predict.luma_predict_big_spec. Qed.
+
+  (* 8x8 V / H / TM / DC prediction on the chroma workspace *)
+  Theorem chroma_predict_big_spec :
+    forall (p : plane) (mx my : Z) (ws : list Z),
+           0 <= mx ->
+           0 <= my ->
+           chroma_border p mx my ws ->
+           forall m : Z, 0 <= m <= 3 -> bytes ws -> big_ok (predict_big (ymode_to_rfc m) ws 8 9 mx my) ws 9 9 8 (pred_big p 8 3 mx my m).
+  Proof. exact VP8_predict.chroma_predict_big_spec. Qed.
+
+  (* the above-right neighbours of the right-column sub-blocks are the reference ones *)
+  Theorem luma_border_top_right :
+    forall (p : plane) (mbw mx my : Z) (ws : list Z),
+           luma_border p mbw mx my ws ->
+           forall sy i : Z,
+           0 <= sy < 4 ->
+           0 <= i < 4 ->
+           nbT ws 13 (1 + 4 * sy) 21 (4 + i) =
+           (if mx =? mbw - 1 then pget p (16 * mx + 15) (16 * my - 1) else pget p (16 * mx + 16 + i) (16 * my - 1)).
+  Proof. exact VP8_predict.luma_border_top_right. Qed.
+
+End I.
